@@ -32,6 +32,8 @@ type action struct {
 }
 
 type world struct {
+	pans    map[int]*capnp.Answer // answers of pipelined calls, for second-level pipelines (pipe2)
+	pansRdy map[int]chan struct{}
 	mu      sync.Mutex
 	trace   []J
 	cmds    map[int]chan string // per call: "ack", "ok", "err"
@@ -53,7 +55,10 @@ var meth = capnp.Method{InterfaceID: 0xabc, MethodID: 0}
 func argOf(c *server.Call) int { return int(c.Args().Uint32(0)) }
 
 // the capability returned in results: records deliveries of pipelined calls
-type target struct{ w *world }
+type target struct {
+	w    *world
+	leaf bool
+}
 
 func (t *target) Send(ctx context.Context, s capnp.Send) (*capnp.Answer, capnp.ReleaseFunc) {
 	return capnp.ErrorAnswer(s.Method, fmt.Errorf("unexpected Send on target")), func() {}
@@ -63,6 +68,13 @@ func (t *target) Recv(ctx context.Context, r capnp.Recv) capnp.PipelineCaller {
 	// the target takes a moment: a call that is let through too early shows up between the queued ones
 	time.Sleep(250 * time.Microsecond)
 	r.ReleaseArgs()
+	// the result holds a capability of its own (calls can be pipelined on this call's answer, too)
+	if !t.leaf {
+		if res, err := r.Returner.AllocResults(capnp.ObjectSize{PointerCount: 1}); err == nil {
+			id := res.Message().AddCap(capnp.NewClient(&target{w: t.w, leaf: true}))
+			res.SetPtr(0, capnp.NewInterface(res.Segment(), id).ToPtr())
+		}
+	}
 	r.Returner.Return(nil)
 	return nil
 }
@@ -92,7 +104,7 @@ func (w *world) impl(ctx context.Context, c *server.Call) error {
 			case "ok":
 				res, err := c.AllocResults(capnp.ObjectSize{PointerCount: 1})
 				if err == nil {
-					id := res.Message().AddCap(capnp.NewClient(&target{w}))
+					id := res.Message().AddCap(capnp.NewClient(&target{w: w}))
 					res.SetPtr(0, capnp.NewInterface(res.Segment(), id).ToPtr())
 				}
 				w.log("impl-return", i, 0, "ok")
@@ -114,7 +126,7 @@ func placeArg(i int) func(capnp.Struct) error {
 
 func runScript(script []action, maxc, qsize int, rng *rand.Rand, id string) (trace []J, hang string) {
 	w := &world{cmds: map[int]chan string{}, started: map[int]chan struct{}{}, answers: map[int]*capnp.Answer{},
-		ansRdy: map[int]chan struct{}{}, cancels: map[int]context.CancelFunc{}}
+		ansRdy: map[int]chan struct{}{}, cancels: map[int]context.CancelFunc{}, pans: map[int]*capnp.Answer{}, pansRdy: map[int]chan struct{}{}}
 	srv := server.New([]server.Method{{Method: meth, Impl: w.impl}}, nil, shut{w}, &server.Policy{MaxConcurrentCalls: maxc, AnswerQueueSize: qsize})
 	client := capnp.NewClient(srv)
 	w.trace = append(w.trace, J{"ev": "reset", "i": 0, "on": 0, "res": "", "script": id})
@@ -190,17 +202,79 @@ func runScript(script []action, maxc, qsize int, rng *rand.Rand, id string) (tra
 			ans := w.answers[a.On]
 			w.mu.Unlock()
 			j := a.I
+			w.mu.Lock()
+			w.pansRdy[j] = make(chan struct{})
+			w.mu.Unlock()
 			w.log("pipe-invoke", j, a.On, "")
 			w.wg.Add(1)
 			go func() {
 				defer w.wg.Done()
 				pa, rel := ans.PipelineSend(context.Background(), []capnp.PipelineOp{{Field: 0}},
 					capnp.Send{Method: meth, ArgsSize: capnp.ObjectSize{DataSize: 8}, PlaceArgs: placeArg(j)})
+				w.mu.Lock()
+				w.pans[j] = pa
+				if ch := w.pansRdy[j]; ch != nil {
+					close(ch)
+				}
+				w.mu.Unlock()
 				_, err := pa.Struct()
 				if err != nil {
 					w.log("pipe-result", j, 0, "err")
 				} else {
 					w.log("pipe-result", j, 0, "ok")
+				}
+				_ = rel
+			}()
+		case "pipe2":
+			// a call pipelined on the answer of pipelined call a.On (field 0 of its result), and - as soon as that answer is visible to
+			// the caller - a direct call (id a.I + 100) on the capability in it: the pipelined call was made first
+			w.mu.Lock()
+			rdy := w.pansRdy[a.On]
+			w.mu.Unlock()
+			if rdy == nil {
+				continue
+			}
+			select {
+			case <-rdy:
+			case <-time.After(15 * time.Millisecond):
+				continue
+			}
+			w.mu.Lock()
+			pb := w.pans[a.On]
+			w.mu.Unlock()
+			j := a.I
+			w.log("pipe-invoke", j, a.On, "")
+			w.wg.Add(2)
+			go func() {
+				defer w.wg.Done()
+				pc, rel := pb.PipelineSend(context.Background(), []capnp.PipelineOp{{Field: 0}},
+					capnp.Send{Method: meth, ArgsSize: capnp.ObjectSize{DataSize: 8}, PlaceArgs: placeArg(j)})
+				_, err := pc.Struct()
+				if err != nil {
+					w.log("pipe-result", j, 0, "err")
+				} else {
+					w.log("pipe-result", j, 0, "ok")
+				}
+				_ = rel
+			}()
+			go func() {
+				defer w.wg.Done()
+				sb, err := pb.Struct()
+				if err != nil {
+					return
+				}
+				p, err := sb.Ptr(0)
+				if err != nil || !p.Interface().Client().IsValid() {
+					return
+				}
+				d := j + 100
+				w.log("pipe-invoke", d, a.On, "")
+				da, rel := p.Interface().Client().SendCall(context.Background(), capnp.Send{Method: meth, ArgsSize: capnp.ObjectSize{DataSize: 8}, PlaceArgs: placeArg(d)})
+				_, err = da.Struct()
+				if err != nil {
+					w.log("pipe-result", d, 0, "err")
+				} else {
+					w.log("pipe-result", d, 0, "ok")
 				}
 				_ = rel
 			}()
